@@ -193,9 +193,17 @@ func (ex *Exec) havocCall(fr *Frame, st *State, name string, args []Value, rt ty
 func (ex *Exec) havocEverything(st *State) {
 	st.Heap = map[string]*Term{}
 	st.Epoch = Fresh("epoch", BVSort(32))
-	na := Fresh("alloc", RefSort)
-	st.assume(ULe(st.Alloc, na))
-	st.Alloc = na
+	st.advanceAlloc("alloc")
+}
+
+// advanceAlloc replaces the allocation counter by an unknown later value (objects may have
+// been allocated by code that was not executed symbolically). Allocated references stay
+// below 2^24: the range above is used for embedded array fields.
+func (s *State) advanceAlloc(name string) {
+	na := Fresh(name, RefSort)
+	s.assume(ULe(s.Alloc, na))
+	s.assume(ULe(na, BVu(0x00fffff0, 32)))
+	s.Alloc = na
 }
 
 func (ex *Exec) havocPointees(st *State, a Value) {
@@ -644,17 +652,11 @@ func (ex *Exec) applyContract(fr *Frame, st *State, ct *Contract, fn *ssa.Functi
 		ex.havocSpecLoc(env, st, m.Expr)
 		touched = true
 	}
-	if touched {
-		na := Fresh("alloc", RefSort)
-		st.assume(ULe(st.Alloc, na))
-		st.Alloc = na
-	}
+	_ = touched
+	// the callee may have allocated objects that its results or the modified locations reference
+	st.advanceAlloc("alloc")
 	res := ex.freshResult(st, rt)
-	if touched || true {
-		// results may reference objects allocated by the callee
-		na := Fresh("alloc", RefSort)
-		st.assume(ULe(st.Alloc, na))
-		st.Alloc = na
+	{
 		if _, isT := res.(TupV); !isT || len(res.(TupV).E) > 0 {
 			st.assume(st.wf(res))
 		}
